@@ -205,8 +205,10 @@ def judge(socs, images, scratch, clauses=CLAUSES, timeout=1500):
     env = [f for f in fails if f[3] in ENVCLAUSES]
     if env:
         sid, kind, i, _ = env[0]
-        what = images[sid] if kind == "img" else (socs[sid]["cfg"], kind, i,
-                                                   socs[sid].get({"reg": "regs", "region": "regions"}.get(kind, "x"), [None] * (i + 1))[i])
+        if kind == "img":
+            what = images[sid]
+        else:
+            what = [socs[sid]["cfg"], kind, i, socs[sid][KEY[kind]][i] if kind in KEY else None]
         raise MachineryError("recorded facts are not what they claim to be (EnvLegal): %s" % json.dumps(what)[:1500])
     fails = [f for f in fails if f[3] in clauses]
     return fails, {"states": res.distinct, "transitions": res.generated, "wall": res.wall, "items": items}
@@ -263,7 +265,7 @@ def describe(socs, images, fail):
                     fam.unA(it["a"]["json"]) if it["a"]["json"][0] >= 0 else -1,
                     fam.unA(it["a"]["csv"]) if it["a"]["csv"][0] >= 0 else -1,
                     [(w[0], hex(fam.unA(w[2]))) for w in it["svd"]],
-                    hx(it["v"]), [(hex(fam.unA(o[0])), hx(o[1]), o[2]) for o in it["wops"]], hx(it["after"]), it["changed"],
+                    hx(it["want"]), [(hex(fam.unA(o[0])), hx(o[1]), o[2]) for o in it["wops"]], hx(it["after"]), it["changed"],
                     it["wid"], [(hex(fam.unA(o[0])), hx(o[1]), o[2]) for o in it["rops"]], hx(it["truth"])))
     return head + ": %s %s" % (kind, json.dumps(it)[:900])
 
@@ -301,7 +303,7 @@ def confirm_on_reference(socs, sids, scratch, log=print):
 
 def _cost(s):
     c = s["cfg"]
-    return (s.get("accesses", 0) * (1 if c["std"] == "wishbone" else 3) * (1 if c["ic"] == "shared" else 2)
+    return (1000000 * s.get("dead", 0) + s.get("accesses", 0) * (1 if c["std"] == "wishbone" else 3) * (1 if c["ic"] == "shared" else 2)
             * (1 if c["cdw"] == 32 else 2))
 
 
@@ -388,8 +390,16 @@ def run(prop, report, tier, seed, log=print):
             report.add(states=st["states"], transitions=st["transitions"])
             fails += [((sid + k) if kind != "img" else sid, kind, i, c) for sid, kind, i, c in f]
         wit = witnesses(socs, images)
+        failing = {(f[0], f[2]) for f in fails if f[1] == "reg"}
+        wit["registers_passing_every_clause"] = sum(
+            1 for n, s in enumerate(socs) if s["built"] for k, r in enumerate(s["regs"])
+            if r["hw"] and not r["skip"] and (n, k) not in failing)
+        wit["multiword_registers_passing_every_clause"] = sum(
+            1 for n, s in enumerate(socs) if s["built"] for k, r in enumerate(s["regs"])
+            if r["hw"] and not r["skip"] and r["nw"]["h"] > 1 and (n, k) not in failing)
         report.add(**wit)
-        for key in ("registers", "multiword_registers", "registers_over_64_bits", "registers_with_fields", "atomic_registers",
+        for key in ("registers", "registers_passing_every_clause", "multiword_registers_passing_every_clause",
+                    "multiword_registers", "registers_over_64_bits", "registers_with_fields", "atomic_registers",
                     "fixed_position_registers", "csr_windows", "regions", "interrupts", "images"):
             if not wit[key]:
                 raise MachineryError("vacuous run: witness counter %s is zero" % key)
@@ -417,7 +427,9 @@ def run(prop, report, tier, seed, log=print):
             reps = [kg for kg in reps if kg[0][0] == "known"] + new[:6]
         # ---- confirm on the reference simulator: every SoC that is reported + the cheapest clean ones
         bad = {f[0] for f in fails if f[1] != "img"}
-        clean = sorted((s for n, s in enumerate(socs) if s["built"] and n not in bad), key=_cost)[:2 if tier == "quick" else 6]
+        ok = sorted((s for n, s in enumerate(socs) if s["built"] and n not in bad), key=_cost)
+        clean = [s for s in ok if s["cfg"]["cpu"] == "none"][:1 if tier == "quick" else 3] + \
+                [s for s in ok if s["irqs"]][:1 if tier == "quick" else 3]
         sids = sorted({g[1][0] for k, g in reps if g[1][1] != "img"} | {s["id"] - 1 for s in clean})
         nref = confirm_on_reference(socs, sids, scratch, log)
         for k, (cost, f, sig) in reps:
